@@ -25,8 +25,10 @@ ASSUMPTIONS = [
 ]
 
 NEAR_MISSES = ['12abc', '1.2.3', '1e', '--1', '0x1F', '1,5', '', ' ', '\t', 'inf', '-inf', 'Infinity', '-Infinity', 'nan', 'NaN', '1e400', '-1e400',
-               'e5', '.', '-', '+', '1 2', '1e+', '1e5.5', 'abc', '१२x', '0b1', '1/2', '$1', '1f', 'null', 'true']
-INT_NEAR_MISSES = ['12abc', '1.5', '1e5', '', ' ', '--1', '0x1F', '1,5', 'inf', 'nan', '1 2', 'abc', '.', '-', '1.0', 'z']
+               'e5', '.', '-', '+', '1 2', '1e+', '1e5.5', 'abc', '१२x', '0b1', '1/2', '$1', '1f', 'null', 'true',
+               '(1.5)', '(12.50)', ' ( 0.25 ) ', '(0.0)', '(1)', '1.5)', '[1.5]', '<1.5>', '1.5-', '1.5+', '1.5%', '1.5 USD', '1 000', "1'000", '1.5e3x', '+-1', '1..5', '\u00bd', '\u2460']
+INT_NEAR_MISSES = ['12abc', '1.5', '1e5', '', ' ', '--1', '0x1F', '1,5', 'inf', 'nan', '1 2', 'abc', '.', '-', '1.0', 'z',
+                   '\ufb00', '\u33c4', '\u339d', '\u216b', '\u2177', '\u00b2', '1\u2460', '\u210c', '-\u24d5\u24d5', '\uff26\uff26', '(1)', '1)', 'f f', 'ff.', '+-f']
 
 _m = {}
 # an integral number as the library hands it to a script (mathFloor / mathCeil / mathRound / numberParseInt / jsonParse results need not be the
